@@ -75,6 +75,34 @@ def _validators(ck: Check, repo: Repo) -> None:
                              f"init_dict['{attr}'] is numpy.int64 and clone() / re-creation from the constructor description fails the assertion",
                       construct=f"{vname}: type test of {attr}")
     ck.floor("C03.10", n, 2, "type tests of numpy-valued widths in net-config validators")
+    # ... and so do the constructors themselves: clone() and the checkpoint loaders call cls(**init_dict) with the attribute's current value
+    m = 0
+    for mod in repo.mods.values():
+        # the building blocks the property quantifies over (MLP, CNN, LSTM, SimBa, ResNet, multi-input); the language-model blocks (gpt, bert) are outside it
+        if not mod.name.startswith("agilerl.modules") or mod.name.split(".")[-1] in ("gpt", "bert"):
+            continue
+        for cls in mod.classes.values():
+            init = cls.methods.get("__init__")
+            if init is None:
+                continue
+            attrs = _numpy_valued_attrs(repo, cls)
+            if not attrs:
+                continue
+            for t in calls_in(init.node):
+                if not (call_name(t) == "isinstance" and len(t.args) == 2 and isinstance(t.args[0], ast.Name) and t.args[0].id in attrs and t.args[0].id in init.params):
+                    continue
+                # only type tests that reject (inside an assert, or a test that leads to a raise) matter; an isinstance used for dispatch is not one
+                if not any(isinstance(a, ast.Assert) and any(x is t for x in ast.walk(a.test)) for a in walk_no_nested(init.node)):
+                    continue
+                m += 1
+                kinds = [dotted(e) for e in (t.args[1].elts if isinstance(t.args[1], ast.Tuple) else [t.args[1]])]
+                ok = any(k in _NUMPY_INTS for k in kinds)
+                attr = t.args[0].id
+                ck.ob("C03.10", init, t, ok, f"{cls.name}.__init__: `{attr}` may be a numpy integer (it is changed by a numpy-drawn amount in a mutation method)",
+                      detail=f"accepted types: {kinds}; `{short(attrs[attr], 50)}` makes self.{attr} a numpy.int64, init_dict carries it, and {cls.name}(**init_dict) — clone(), "
+                             f"checkpoint loading — fails this assertion",
+                      construct=f"{cls.name}.__init__: type test of {attr}")
+    ck.note("C03.10_constructor_type_tests", m)
 
 
 # ------------------------------------------------------------------------------------------------ C03.11
